@@ -23,6 +23,8 @@ pub mod build;
 // mod content;
 pub mod enc;
 pub mod crypt;
+#[cfg(pdf_rs_pdf_verif)]
+pub mod verif_hooks;
 
 // pub use content::*;
 pub use crate::error::PdfError;
